@@ -286,12 +286,25 @@ selector = quantifier + Keyword("of") + identifier_pattern
 selector.set_parse_action(ConditionSelector.from_parsed)
 
 operand = selector | identifier
+# The operators are keywords: a detection identifier that merely begins with an operator (e.g.
+# "notepad", "and_x", "oracle") must be read as a whole word and not as operator plus remainder.
+_identifier_chars = alphanums + "_-*"
 condition = infix_notation(
     operand,
     [
-        ("not", 1, opAssoc.RIGHT, ConditionNOT.from_parsed),
-        ("and", 2, opAssoc.LEFT, ConditionAND.from_parsed),
-        ("or", 2, opAssoc.LEFT, ConditionOR.from_parsed),
+        (
+            Keyword("not", ident_chars=_identifier_chars),
+            1,
+            opAssoc.RIGHT,
+            ConditionNOT.from_parsed,
+        ),
+        (
+            Keyword("and", ident_chars=_identifier_chars),
+            2,
+            opAssoc.LEFT,
+            ConditionAND.from_parsed,
+        ),
+        (Keyword("or", ident_chars=_identifier_chars), 2, opAssoc.LEFT, ConditionOR.from_parsed),
     ],
 )
 
